@@ -6,7 +6,7 @@
    as is the lowering with optimisation passes and WindowedChoose; of that half only `C20_coarse` is a theorem. *)
 From Coq Require Import ZArith Bool List.
 Import ListNotations.
-From Verif Require Import Model.Val Model.Strl Proofs.StrlP Proofs.StrlP2 Proofs.StrlP3 Proofs.StrlP4 Proofs.StrlP5 Proofs.StrlP6 Proofs.StrlP7 Proofs.StrlP8.
+From Verif Require Import Model.Val Model.Strl Proofs.StrlP Proofs.StrlP2 Proofs.StrlP3 Proofs.StrlP4 Proofs.StrlP5 Proofs.StrlP6 Proofs.StrlP7 Proofs.StrlP8 Proofs.StrlP9.
 Open Scope Z_scope.
 
 (* capacity: for every tree whose leaf start times are congruent modulo the granularity, every
@@ -179,3 +179,9 @@ Theorem C20_structure_monitor_holds : forall pt now g e cs a,
   structure_okb pt now e (populate pt now a e) = true.
 Proof. exact structure_monitor_holds. Qed.
 Print Assumptions C20_structure_monitor_holds.
+(* the Min monitor on the read-back (applied to the lowerings that are checked, not modelled: optimisation
+   passes, ranges, WindowedChoose - always against the ORIGINAL tree): of the members of a Min that contain
+   Choose leaves, either none or every one has a placement *)
+Theorem C20_monitor_min : forall e pls, min_okb e pls = true <-> min_ok e pls.
+Proof. exact min_okb_iff. Qed.
+Print Assumptions C20_monitor_min.
